@@ -461,14 +461,16 @@ PROPS["C18"] = {
     "level": "model_checking",
     "functions": ["bourse::order_book::OrderBook::{set_time,enable_trading,disable_trading,ask_vol,best_ask_vol,best_ask_vol_and_orders,bid_vol,best_bid_vol,best_bid_vol_and_orders,bid_ask,order_status,place_order,cancel_order,modify_order}",
                   "bourse::step_sim::StepEnv::{time,ask_vol,best_ask_vol,best_ask_vol_and_orders,bid_vol,best_bid_vol,best_bid_vol_and_orders,trade_vol,bid_ask,order_status}", "bourse::types::{cast_order,cast_trade}", "From<Status> for u8", "From<Side> for bool"],
-    "assumptions": PY_ASSUME[1:] + ["pyo3::exceptions::PyValueError::new_err replaced by a path-ending stand-in (reaching pyo3's lazy exception construction is a Kani internal compiler error): the error path of place_order is decided at core level by C12"],
+    "assumptions": PY_ASSUME[1:] + ["pyo3::exceptions::PyValueError::new_err replaced by a stand-in (reaching pyo3's lazy exception construction is a Kani internal compiler error): path-ending in the forwarding harnesses, counting + inert value in the two *_place_any_price_* harnesses, where core::fmt::write (the error message: integer formatting over symbolic values) is replaced by a no-op as well"],
     "bounds": "wrapper over an arbitrary 2-entry core book (10 published levels as in the Python build), one call per harness, full-width arguments",
-    "outside": "CPython <-> Rust argument extraction (OverflowError), the exception OBJECT (ValueError), get_orders / get_trades list building (their element casts are covered), what the forwarded Env::step / place_order do (C08 / C10), JSON interchange with Python (C07's text layer)",
-    "explanation": "Wrapper object and a bare core object built from the same arbitrary order table: every scalar getter returns the core's value (bid getters from bid data, ask from ask; StepEnv getters from the step snapshot and the core clock / counter), order_status returns the documented code 0..4 for every status, each mutating method (set_time, toggles, cancel, modify, place) leaves the wrapped book equal to a reference driven by the same call with True = bid, and the order / trade tuple casts put the documented field at every position.",
-    "stubs": ["pyo3::exceptions::PyValueError::new_err -> path ends (assume false)", "OrderBook::process_event -> logging stand-in in c18_stepenv_step_uses_its_own_generator only", "std BTreeMap -> verif_map (cfg(kani) only)"],
+    "outside": "CPython <-> Rust argument extraction (OverflowError), the exception OBJECT and its message (that PyValueError::new_err is what gets called is decided; what pyo3 makes of it is not), get_orders / get_trades list building (their element casts are covered), what the forwarded Env::step / place_order do (C08 / C10), JSON interchange with Python (C07's text layer)",
+    "explanation": "Wrapper object and a bare core object built from the same arbitrary order table: every scalar getter returns the core's value (bid getters from bid data, ask from ask; StepEnv getters from the step snapshot and the core clock / counter), order_status returns the documented code 0..4 for every status, each mutating method (set_time, toggles, cancel, modify with every option shape, place) leaves the wrapped book equal to a reference driven by the same call with True = bid, an off-grid price makes OrderBook.place_order / StepEnv.place_order build exactly one ValueError and leaves the object unchanged, and the order / trade tuple casts put the documented field at every position.",
+    "stubs": ["pyo3::exceptions::PyValueError::new_err -> path ends (assume false) / counted inert value", "core::fmt::write -> no-op (error-path harnesses only)", "OrderBook::process_event -> logging stand-in in c18_stepenv_step_uses_its_own_generator only", "std BTreeMap -> verif_map (cfg(kani) only)"],
     "harnesses": [py("c18_orderbook_getters", "OrderBook getters and status codes == core", covers=["cover.rejected_order", "cover.asymmetric_book"]),
                   py("c18_orderbook_operations_off", "OrderBook.set_time / toggles / cancel / modify / place forward unchanged (trading off)", covers=["cover.bid_placed_through_the_wrapper", "cover.modify_restates_the_current_price", "cover.pure_reduction"]),
                   dict(book("c07_reload_m2", "snapshot interchange, Rust side: what the Python OrderBook.load_json hands to (derived decode + TryFrom<OrderBookState>) restores every scalar, record, key and both side indexes from an arbitrary order table (unplaced, rejected, cancelled orders included)", covers=["cover.two_sided_book", "cover.unplaced_and_active_orders_present"], timeout=600), replayable=True),
+                  py("c18_orderbook_place_any_price_tick3_off", "OrderBook.place_order with ANY price on a tick-3 book: off the grid => exactly one ValueError is built and the wrapped book is unchanged; on the grid / market => forwarded, id returned", covers=["cover.off_grid_price_rejected", "cover.on_grid_limit_order_placed"]),
+                  py("c18_stepenv_place_any_price_tick3", "StepEnv.place_order with ANY price, tick 3: off the grid => one ValueError, no order record, nothing queued; on the grid => one New instruction for the created order, arguments forwarded (True = bid)", covers=["cover.off_grid_price_rejected", "cover.on_grid_limit_order_queued"]),
                   py("c18_record_casts", "cast_order / cast_trade field positions and encodings", covers=["cover.rejected_ask"]),
                   py("c18_stepenv_getters", "StepEnv getters and status codes == core / step snapshot", covers=["cover.rejected_order"]),
                   py("c18_stepenv_step_uses_its_own_generator", "StepEnv.place/cancel/modify queue what the core queues; step() drives the core with the object's own generator, whose state carries over between steps (symbolic seed)", covers=[], timeout=900)],
